@@ -219,8 +219,8 @@ structure Rpc where
 deriving Repr, DecidableEq, Inhabited
 
 inductive Item
-  | hdr (id : Nat)
-  | cleanup (id : Nat) (rst : Bool) (code : Nat)
+  | hdr (idx id : Nat)                                  -- clientHeaders of the stream at index `idx` (its id)
+  | cleanup (idx id : Nat) (rst : Bool) (code : Nat)    -- cleanupStream of the stream at index `idx`
   | inGoAway
   | outGoAway
   | settingsAck
@@ -322,9 +322,6 @@ def State.updRpc (s : State) (k : Nat) (f : Rpc → Rpc) : State :=
 def State.findActive (s : State) (sid : Nat) : Option Nat :=
   s.streams.findIdx? fun st => st.id == sid && st.inActive
 
-def State.findId (s : State) (sid : Nat) : Option Nat :=
-  s.streams.findIdx? fun st => st.id == sid
-
 /-- `len(t.activeStreams)` -/
 def State.activeCount (s : State) : Nat := (s.streams.filter (·.inActive)).length
 
@@ -351,7 +348,7 @@ def State.closeStream (s : State) (i : Nat) (err : Option Nat) (st : Nat) (rst :
     if str.term.isSome then s else
     let s := s.updStream i (closeF err st)
     if s.cbufClosed then s else
-    ({ s with quota := s.quota + 1, cbuf := s.cbuf ++ [Item.cleanup str.id rst rstCode] }).sendToken
+    ({ s with quota := s.quota + 1, cbuf := s.cbuf ++ [Item.cleanup i str.id rst rstCode] }).sendToken
 
 /-- the stream-record update of `NewStream`'s `cleanup` closure -/
 def orphanF (err : Nat) (x : Strm) : Strm :=
@@ -591,13 +588,12 @@ def State.onFrame (s : State) (f : Frame) : State :=
 
 /-! ## loopy -/
 
+def deactF (x : Strm) : Strm := { x with inActive := false }
+
 /-- `v.onOrphaned(ErrConnClosing)` for the queued `clientHeaders` items -/
 def State.orphanQueued (s : State) : List Item → State
   | [] => s
-  | .hdr id :: rest =>
-    (match s.findId id with
-     | some i => (s.orphan i cUnavailable).orphanQueued rest
-     | none => s.orphanQueued rest)
+  | .hdr i _ :: rest => (s.orphan i cUnavailable).orphanQueued rest
   | _ :: rest => s.orphanQueued rest
 
 /-- `controlBuffer.finish`: close the buffer, orphan queued HEADERS -/
@@ -630,18 +626,14 @@ def State.loopyStep (s : State) : State × List Wire :=
     -- a write after the conn is gone fails with an I/O error
     let dead := s.connClosed || s.peerGone
     match it with
-    | .hdr id =>
-      match s.findId id with
-      | none => (s, [])
-      | some i =>
-        if s.lDraining then (s.orphan i cUnavailable, [])
-        else if s.tstate = .closing then (s.orphan i cUnavailable).loopyExit true   -- initStream: ErrConnClosing
-        else if dead then s.loopyExit false
-        else (({ s with estd := s.estd ++ [id] }).write (.H id), [])
-    | .cleanup id rst code =>
-      let s : State := match s.findId id with
-        | some i => if s.tstate = TState.closing then s else s.updStream i fun x => { x with inActive := false }
-        | none => s
+    | .hdr i id =>
+      if s.lDraining then (s.orphan i cUnavailable, [])
+      else if s.tstate = .closing then (s.orphan i cUnavailable).loopyExit true   -- initStream: ErrConnClosing
+      else if dead then s.loopyExit false
+      else (({ s with estd := s.estd ++ [id] }).write (.H id), [])
+    | .cleanup i id rst code =>
+      -- onWrite: delete(t.activeStreams, id) unless Close already niled the map
+      let s : State := if s.tstate = TState.closing then s else s.updStream i deactF
       let s := { s with estd := s.estd.filter (· ≠ id) }
       if rst && dead then s.loopyExit false else
       let s := if rst then s.write (.R id code) else s
@@ -708,7 +700,7 @@ def State.register (s : State) (k : Nat) (r : Rpc) : State :=
       bytesReceived := false, nonGRPC := none, pd := 0, pu := 0, inActive := true, inSnapshot := false,
       buffered := 0, nread := 0 }
   let idx := s.streams.length
-  let s := { s with nextID := id + 2, streams := s.streams ++ [str], cbuf := s.cbuf ++ [Item.hdr id] }
+  let s := { s with nextID := id + 2, streams := s.streams ++ [str], cbuf := s.cbuf ++ [Item.hdr idx id] }
   s.sendToken.updRpc k (setSt (.opened idx))
 
 /-- one pass of `NewStream`'s `executeAndPut(checkForHeaderListSize && checkForStreamQuota, hdr)` for
